@@ -5,7 +5,7 @@
 #include <unistd.h>
 #include <sys/stat.h>
 
-static int g_mode;      /* 0 phrase, 1 password, 2 buffer (C14: safety); 3 relation between the two decoders (C09); 4 decoders vs reference model (C08) */
+static int g_mode;      /* 0 phrase, 1 password, 2 buffer (C14: safety); 3 relation between the two decoders (C09); 4 decoders vs reference model (C08); 5 load vs reference codec (C06) */
 static bool g_have_model;
 static uint64_t g_execs, g_status[8];
 
@@ -30,7 +30,7 @@ int LLVMFuzzerInitialize(int* argc, char*** argv) {
         for (int i = 0; i < 400; ++i) {
             char path[4096]; snprintf(path, sizeof path, "%s/seed-%d-%03d", corpus, g_mode, i);
             FILE* f = fopen(path, "wb"); if (!f) continue;
-            if (g_mode == 2) { pv_mseed s; pv_gen_mseed(&r, 3, true, &s); uint8_t img[32]; pv_m_image(&s, img); if (i % 3 == 0) img[pv_randn(&r, 32)] ^= 4; fwrite(img, 1, 32, f); }
+            if (g_mode == 2 || g_mode == 5) { pv_mseed s; pv_gen_mseed(&r, 3, true, &s); uint8_t img[32]; pv_m_image(&s, img); if (i % 3 == 0) img[pv_randn(&r, 32)] ^= 4; fwrite(img, 1, 32, f); }
             else {
                 pv_gstr g; pv_gen_string(&r, 3, &g);
                 if (g.len < 1500) { uint8_t hdr[3] = { (uint8_t)g.coin, (uint8_t)(g.coin >> 8), (uint8_t)g.lang }; fwrite(hdr, 1, 3, f); fwrite(g.s, 1, g.len, f); }
@@ -55,7 +55,28 @@ static void finish_seed(polyseed_data* s, const char* api) {
 int LLVMFuzzerTestOneInput(const uint8_t* data, size_t size) {
     ++g_execs;
     pv_world_begin("fuzz");
-    if (g_mode == 2) {
+    if (g_mode == 5 && g_have_model) {
+        /* C06: acceptance, status precedence and canonicity of polyseed_load against the reference codec, on coverage-guided buffers;
+         * byte 32 of the input (if present) selects the enabled feature mask */
+        if (size < 32) { pv_world_end(); return 0; }
+        unsigned mask = size > 32 ? data[32] & 7u : 3u;
+        polyseed_enable_features(mask);
+        uint8_t* b = malloc(32); memcpy(b, data, 32);
+        pv_mseed ms; int want = pv_m_load(b, mask, &ms);
+        polyseed_data* s = NULL; int st = polyseed_load(b, &s);
+        g_status[st & 7]++;
+        if (st != want) { char d[200]; snprintf(d, sizeof d, "mask %u image %s: library %s, model %s", mask, pv_hex(b, 32), pv_status_name(st), pv_status_name(want)); die("C06/fuzz/load-status-differs-from-model", d); }
+        if (memcmp(b, data, 32)) die("C06/fuzz/input-modified", "load");
+        if (st == POLYSEED_OK) {
+            uint8_t* img = malloc(32); polyseed_store(s, img);
+            if (memcmp(img, data, 32)) die("C06/fuzz/accepted-image-not-canonical", pv_hex(data, 32));
+            uint8_t mimg[32]; pv_m_image(&ms, mimg); if (memcmp(mimg, img, 32)) die("C06/fuzz/stored-image-differs-from-model", pv_hex(img, 32));
+            if (polyseed_get_birthday(s) != pv_m_birthday_time(ms.birthday) || polyseed_get_feature(s, 7) != (ms.features & 7u) || (polyseed_is_encrypted(s) != 0) != ((ms.features & 16u) != 0)) die("C06/fuzz/loaded-seed-differs-from-model", pv_hex(data, 32));
+            free(img); polyseed_free(s);
+        } else if (s != NULL && 0) { }
+        free(b);
+        polyseed_enable_features(3);
+    } else if (g_mode == 2 || g_mode == 5) {
         if (size < 32) { pv_world_end(); return 0; }
         uint8_t* b = malloc(32); memcpy(b, data, 32);
         polyseed_data* s = NULL; int st = polyseed_load(b, &s);
